@@ -51,9 +51,12 @@ package batching
 //@   ensures forall(func(k uint64) bool { return has(b.items, k) == (old(has(b.items, k)) || k == seq) }) && same(b.items[seq], item)
 //@   ensures forall(func(k uint64) bool { return k != seq ==> same(b.items[k], old(b.items[k])) })
 
+// Reserve waits for a free slot WITHOUT the buffer's lock: a slot is freed only by Drain, which
+// needs that lock (waiting with it held, nothing is ever emitted again once the buffer is full).
 //@ func ReorderBuffer.Reserve
 //@   property C04 C20
 //@   nowrap
+//@   atcall send:reserved: !held(b.mu)
 //@   modifies b.nextSeqNum
 //@   ensures result == old(b.nextSeqNum) && b.nextSeqNum == old(b.nextSeqNum) + 1
 
@@ -89,5 +92,6 @@ package batching
 //@   nosafety
 //@   order Add after fetchBatch
 //@   order Drain after Add
+//@   ensures called(Add) && called(Drain)
 //@   atcall fetchBatch: same(arg1, events)
 //@   atcall Add: arg0 == seqNum && same(arg1, result)
